@@ -204,8 +204,8 @@ class Fn:
         doc += '   returns: %s\n   raises: %s *)\n' % (
             ', '.join('%d=%s' % (v, k.replace('(*', '( *').replace('*)', '* )'))
                       for k, v in sorted(self.rets.items(), key=lambda x: x[1])),
-            ', '.join('%d=%s' % (v, k) for k, v in sorted(self.raises.items(),
-                                                          key=lambda x: x[1])))
+            ', '.join('%d=%s' % (v, k.replace('(*', '( *').replace('*)', '* )'))
+                      for k, v in sorted(self.raises.items(), key=lambda x: x[1])))
         n = max(self.atoms.values()) + 1 if self.atoms else 0
         return doc + 'Definition %s : dt :=\n  %s.\nDefinition %s_natoms : nat := %d.\n\n' % (
             self.coq_name, tree, self.coq_name, n)
@@ -242,4 +242,85 @@ def gen_trees(mod):
                    "InvalidScope(rule, rule.scope_types, 'project')": 2},
            ignore=('msg =', 'warnings.warn(', 'LOG.'))
     out += f.translate(find_func(enf.body, '_enforce_scope').body)
+
+    # ---- Enforcer.enforce: fixed prefix (checked textually), then the decision part as a tree
+    enforce = find_func(enf.body, 'enforce')
+    body = [x for x in enforce.body if not (isinstance(x, ast.Expr) and isinstance(x.value, ast.Constant))]
+    idx = None
+    for i, st in enumerate(body):
+        if isinstance(st, ast.If) and ast.unparse(st.test) == 'isinstance(rule, _checks.BaseCheck)':
+            idx = i
+    if idx is None:
+        raise Refuse('enforce: dispatch on isinstance(rule, _checks.BaseCheck) not found')
+    prefix = body[:idx]
+    want_prefix = [
+        'self.load_rules()',
+        None,   # the credential type gate, checked below
+        "if creds.get('system_scope'):\n    creds['system'] = creds.get('system_scope')",
+        None,   # the debug dump, checked below
+    ]
+    if len(prefix) != 4:
+        raise Refuse('enforce: prefix has %d statements, expected 4' % len(prefix))
+    for st, want in zip(prefix, want_prefix):
+        if want is not None and ast.unparse(st) != want:
+            raise Refuse('enforce: prefix statement changed: %s' % ast.unparse(st).splitlines()[0])
+    gate = prefix[1]
+    ok = isinstance(gate, ast.If) and ast.unparse(gate.test) == 'isinstance(creds, context.RequestContext)' \
+        and [ast.unparse(x) for x in gate.body] == ['creds = self._map_context_attributes_into_creds(creds)'] \
+        and len(gate.orelse) == 1 and isinstance(gate.orelse[0], ast.If) \
+        and ast.unparse(gate.orelse[0].test) == 'not isinstance(creds, collections.abc.MutableMapping)' \
+        and not gate.orelse[0].orelse \
+        and ast.unparse(gate.orelse[0].body[-1]) == 'raise InvalidContextObject(msg)' \
+        and all(ast.unparse(x).startswith('msg =') for x in gate.orelse[0].body[:-1])
+    if not ok:
+        raise Refuse('enforce: credential type gate has an unknown shape')
+    dbg = prefix[3]
+    if not (isinstance(dbg, ast.If) and ast.unparse(dbg.test) == 'LOG.isEnabledFor(logging.DEBUG)'
+            and not dbg.orelse):
+        raise Refuse('enforce: debug block has an unknown shape')
+    assigned = set()
+    for n in ast.walk(dbg):
+        if isinstance(n, (ast.Assign, ast.AugAssign, ast.AnnAssign)):
+            for t in (n.targets if isinstance(n, ast.Assign) else [n.target]):
+                if not isinstance(t, ast.Name):
+                    raise Refuse('enforce: debug block assigns to %s' % ast.unparse(t))
+                assigned.add(t.id)
+        if isinstance(n, (ast.Return, ast.Raise, ast.Delete, ast.Global, ast.Nonlocal)):
+            raise Refuse('enforce: debug block contains %s' % type(n).__name__)
+        if isinstance(n, ast.ExceptHandler) and n.name:
+            assigned.add(n.name)
+    if not assigned <= {'creds_dict', 'creds_msg', 'target_dict', 'target_msg', 'e'}:
+        raise Refuse('enforce: debug block assigns to %s' % sorted(assigned))
+    chk_obj = '_checks._check(rule=rule, target=target, creds=creds, enforcer=self, current_rule=None)'
+    chk_name = '_checks._check(rule=self.rules[rule], target=target, creds=creds, enforcer=self, current_rule=rule)'
+    sc_obj = 'self._enforce_scope(creds, rule, do_raise=do_raise)'
+    sc_name = 'self._enforce_scope(creds, self.registered_rules.get(rule), do_raise=do_raise)'
+    f = Fn('enforce_tree',
+           atoms={'isinstance(rule, _checks.BaseCheck)': 0,
+                  'rule.scope_types': 1,
+                  sc_obj: 2,
+                  chk_obj: 3,
+                  'self.rules': 4,
+                  'self.rules[rule]/ok': 5,
+                  'self.registered_rules.get(rule)': 6,
+                  'self.registered_rules.get(rule).scope_types': 7,
+                  sc_name: 8,
+                  chk_name: 9,
+                  'do_raise': 10,
+                  'exc': 11},
+           rets={'False': 0, chk_obj + '/truthy': 1, chk_obj + '/falsy': 2,
+                 chk_name + '/truthy': 3, chk_name + '/falsy': 4},
+           raises={'exc(*args, **kwargs)': 0, 'PolicyNotAuthorized(rule, target, creds)': 1,
+                   'KeyError': 2},
+           ignore=('LOG.',),
+           effectful=(sc_obj, chk_obj, sc_name, chk_name),
+           raising={'self.rules[rule]': 'KeyError'})
+    out += f.translate(body[idx:])
+
+    # ---- Enforcer.authorize
+    f = Fn('authorize_tree',
+           atoms={'rule in self.registered_rules': 0},
+           rets={'self.enforce(rule, target, creds, do_raise, exc, *args, **kwargs)': 0},
+           raises={'PolicyNotRegistered(rule)': 0})
+    out += f.translate(find_func(enf.body, 'authorize').body)
     return out
